@@ -317,6 +317,87 @@ theorem readLoop_shape (K : Code) (hK : CodeOK K) : ∀ (rs : List RdRes) (np : 
       exact ⟨fun e he => (by cases he), fun _ => Clean.nil, AllAct.nil, Conn.Le.refl c,
         List.suffix_refl _⟩
 
+/-- Fate of the deferred write error inside the read loop: it is still pending at the end, or it
+was forgiven — and it is forgiven only at a disconnect packet that was read and dispatched. -/
+theorem readLoop_pend (K : Code) (hK : CodeOK K) : ∀ (rs : List RdRes) (np : Nat)
+    (pend : Option Exc) (c : Conn),
+    ((readLoop K rs np pend c).pend = pend ∨
+      ((readLoop K rs np pend c).pend = none ∧
+        ∃ e0, pend = some e0 ∧ TEv.forgiven e0 ∈ (readLoop K rs np pend c).log)) ∧
+    (∀ e, TEv.forgiven e ∈ (readLoop K rs np pend c).log →
+      pend = some e ∧ (readLoop K rs np pend c).pend = none ∧ ∃ a cls b,
+        (readLoop K rs np pend c).log = a ++ TEv.read (.packet cls true) :: b) := by
+  intro rs
+  induction rs with
+  | nil =>
+    intro np pend c
+    by_cases h : (decide (np < 50) && !c.selfIntr) = true
+    · rw [readLoop_nil K np pend c h]; simp
+    · rw [readLoop_stop K [] np pend c (by simpa using h)]; simp
+  | cons r rs ih =>
+    intro np pend c
+    by_cases h : (decide (np < 50) && !c.selfIntr) = true
+    · have hseen := hK.seen r
+      cases hr : r with
+      | none => rw [← hr, readLoop_cons_none K r rs np pend c h (by rw [hseen, hr])]; simp
+      | raises e0 =>
+        rw [← hr, readLoop_cons_raises K r rs np pend c h e0 (by rw [hseen, hr])]; simp
+      | packet cls d =>
+        by_cases hx : ∃ e0, (K.react cls c).2.2 = .escaped e0
+        · obtain ⟨e0, hx⟩ := hx
+          rw [← hr, readLoop_cons_esc K r rs np pend c h cls d (by rw [hseen, hr]) e0 hx]
+          simp
+        · have hx' : ∀ e, (K.react cls c).2.2 ≠ .escaped e := fun e he => hx ⟨e, he⟩
+          rw [← hr, readLoop_cons_ok K r rs np pend c h cls d (by rw [hseen, hr]) hx']
+          obtain ⟨i1, i2⟩ := ih (np + 1) (if d = true then none else pend) (K.react cls c).2.1
+          simp only
+          constructor
+          · cases d with
+            | true =>
+              simp only [↓reduceIte] at i1
+              have hk : (readLoop K rs (np + 1) none (K.react cls c).2.1).pend = none := by
+                rcases i1 with g | ⟨g, -⟩ <;> exact g
+              simp only [↓reduceIte, hk]
+              cases pend with
+              | none => exact .inl rfl
+              | some e0 => exact .inr ⟨trivial, e0, rfl, by simp [forgivenEv]⟩
+            | false =>
+              simp only [Bool.false_eq_true, ↓reduceIte] at i1 ⊢
+              rcases i1 with g | ⟨g, e0, g1, g2⟩
+              · exact .inl g
+              · exact .inr ⟨g, e0, g1, by simp [g2]⟩
+          · intro e he
+            simp only [List.cons_append, List.mem_cons, reduceCtorEq, List.mem_append,
+              List.mem_map, false_or, and_false, exists_false] at he
+            rcases he with he | he
+            · -- forgiven right here
+              cases pend with
+              | none => simp [forgivenEv] at he
+              | some e1 =>
+                cases d with
+                | false => simp [forgivenEv] at he
+                | true =>
+                  simp only [forgivenEv, ↓reduceIte, List.mem_singleton, TEv.forgiven.injEq] at he
+                  subst he
+                  have hk : (readLoop K rs (np + 1) none (K.react cls c).2.1).pend = none := by
+                    simp only [↓reduceIte] at i1
+                    rcases i1 with g | ⟨g, -⟩ <;> exact g
+                  refine ⟨rfl, by simpa using hk, [], cls, List.map TEv.cb (K.react cls c).1 ++
+                    forgivenEv (some e) true ++
+                    (readLoop K rs (np + 1) (if true = true then none else some e)
+                      (K.react cls c).2.1).log, ?_⟩
+                  rw [hr]; simp
+            · obtain ⟨j1, j3, a, cls', b, j2⟩ := i2 e he
+              cases d with
+              | true => simp at j1
+              | false =>
+                simp only [Bool.false_eq_true, ↓reduceIte] at j1 j2 j3
+                refine ⟨j1, by simpa using j3, TEv.read r :: (List.map TEv.cb (K.react cls c).1 ++
+                  forgivenEv pend false ++ a), cls', b, ?_⟩
+                simp only [Bool.false_eq_true, ↓reduceIte, j2]
+                simp
+    · rw [readLoop_stop K (r :: rs) np pend c (by simpa using h)]; simp
+
 /-! ## The outer loop -/
 
 theorem runLoop_intr (K : Code) (ws : List WRes) (rs : List RdRes) (c : Conn)
@@ -693,6 +774,40 @@ theorem thread_quiet (K : Code) (hK : CodeOK K) (S : Setup) (ws : List WRes) (rs
   · rw [h3]; exact ⟨rfl, rfl, hc, fun hh => by cases hh⟩
   · rw [h3]; exact ⟨rfl, rfl, hc.append (Clean.single rfl), fun _ => rfl⟩
   · rw [h4] at h; simp [excPath] at h
+
+/-- The `except` clause of `run` in the real code only sets the own flag. -/
+theorem pyPrologue_le (S : Setup) (c : Conn) : c.Le ((pyCode S).excPrologue c) := by
+  rcases c with ⟨nt, new, sock, connected, conns, closed⟩
+  cases nt <;>
+    refine ⟨?_, ?_, ?_, ?_, ?_, ?_, ?_, fun _ k hk => .inl hk⟩ <;> simp [pyCode, Conn.FreshNew]
+
+/-- A thread that has ended has cleared its slot; the rest of the connection is what the API calls
+of the run made of it. -/
+theorem thread_ended (S : Setup) (ws : List WRes) (rs : List RdRes) (c : Conn)
+    (hend : (runThreadWith (pyCode S) S ws rs c).ended = true) :
+    ∃ c2, c.Le c2 ∧ (runThreadWith (pyCode S) S ws rs c).conn = { c2 with nt := none } := by
+  obtain ⟨-, act, c1, h1, h2, h3⟩ := runThreadWith_shape (pyCode S) (pyCode_ok S) S ws rs c
+  rcases h3 with ⟨hc, h3 | h3⟩ | ⟨e0, -, h4⟩
+  · rw [h3] at hend; cases hend
+  · exact ⟨c1, h2, by rw [h3]⟩
+  · obtain ⟨le, a, b, d⟩ := hx_conn S.hier S.inv (if c1.conns = c.conns then S.rh else S.rhNew)
+      S.handlers S.fin e0 e0 ((pyCode S).excPrologue c1)
+    have hle := (h2.trans (pyPrologue_le S c1)).trans le
+    rw [h4]
+    simp only [excPath]
+    generalize hx S.hier S.inv (if c1.conns = c.conns then S.rh else S.rhNew)
+      S.handlers S.fin e0 e0 ((pyCode S).excPrologue c1) = h at *
+    by_cases hr : h.effR = .retTrue
+    · exact ⟨h.connAtCleanup, hle, by rw [b hr]⟩
+    · have d' := d hr
+      cases hf : h.connAtCleanup.cleanupFlag with
+      | none => rw [hf] at d'; exact ⟨h.connAtCleanup, hle, by rw [d'.2]⟩
+      | some bb =>
+        rw [hf] at d'
+        cases bb with
+        | false => exact ⟨h.connAtCleanup, hle, by rw [d'.2]⟩
+        | true =>
+          exact ⟨h.connAtCleanup.disconnect, hle.trans (disconnect_le _), by rw [d'.2]⟩
 
 /-! ## The specifications as predicates on a run (so that changed code can be tested against them) -/
 
